@@ -259,10 +259,28 @@ def run(ctx):
         ctx.count('periods_observed', probe.periods_total)
     finally:
         probe.stop()
+    if ctx.shard == 0:
+        # separate rule objects iterated by four threads at once: what a rule yields does not depend on other rules being
+        # iterated (outcomes compared with the single-threaded ones; bounded rules only)
+        from vf import concurrent as CC
+        import itertools
+        import random
+        r2 = random.Random(ctx.seed + 11)
+        pool = []
+        base = D.datetime(1997, 9, 2, 9, 0, 0)
+        for freq in range(7):
+            for extra in ({}, {'interval': 3}, {'byweekday': [R.MO, R.TH(2)] if freq <= 1 else [R.MO, R.TH]}, {'bymonthday': [1, -1, 15]},
+                          {'bymonth': [2, 9], 'bymonthday': [28, 29]}, {'byeaster': [0, -2]} if freq == 0 else {'byhour': [9, 17]},
+                          {'byweekno': [1, 20, 53]} if freq == 0 else {'byminute': [0, 30]}, {'bysetpos': [1, -1], 'byweekday': [R.MO, R.FR], 'byhour': [9, 10]}):
+                pool.append(tuple(sorted(dict(extra, freq=freq, dtstart=base.replace(day=2 + len(pool) % 20), count=8).items())))
+        CC.concurrent_pure(ctx, 'iterations', [R], lambda a: list(itertools.islice(R.rrule(**dict(a)), 8)), pool,
+                           8 if ctx.tier == 'quick' else 100, per_thread=15, prob=.05)
 
 
 def floors(agg, tier):
     c, out = agg['counters'], []
+    from vf import concurrent as CC
+    CC.floor(c, 'iterations', 400, 1000, out)
     need = {'quick': 6000, 'thorough': 80000}[tier]
     if agg['evaluations'] < need:
         out.append('only %d rules compared (< %d)' % (agg['evaluations'], need))
